@@ -482,6 +482,10 @@ var (
 	clockIsExact bool
 )
 
+// SleepYield lets background goroutines run: natively a real sleep of ms milliseconds; under
+// the executor the coroutines of the path are advanced until each blocks or sleeps.
+func SleepYield(ms int) { time.Sleep(time.Duration(ms) * time.Millisecond) }
+
 // ClockIsExact reports whether ClockExact was called.
 func ClockIsExact() bool { return clockIsExact }
 
